@@ -17,23 +17,25 @@ EXTENDS WsHandshake, Json, IOUtils, TLCExt
 Traces == JsonDeserialize(IOEnv.TRACE_FILE)
 N == Len(Traces)
 ASSUME \A i \in 1..N : TLCSet(i, 0)
-VARIABLES tid, l
-tvars == <<tid, l>>
+VARIABLES tid, l, lim
+\* lim = [max, open]: the connection limit of the factory under test and the number of admitted connections still open
+tvars == <<tid, l, lim>>
 E == Traces[tid][l]
 IsEvent(name) == l <= Len(Traces[tid]) /\ E.ev = name /\ l' = l + 1 /\ UNCHANGED tid
-TInit == tid \in 1..N /\ l = 1
+TInit == tid \in 1..N /\ l = 1 /\ lim = [max |-> 0, open |-> 0]
 
 Req(x) == [f \in ReqFeatures |-> x[f]]
 Resp(x) == [f \in RespFeatures |-> x[f]]
 NoEscape(o) == o.escaped = "" /\ o.state \in {"CONNECTING", "OPEN", "CLOSED"}
 
 TSReq ==
-  /\ IsEvent("sreq")
+  /\ IsEvent("sreq") /\ UNCHANGED lim
   /\ LET r == Req(E.req) o == E.obs
          cfg == [origins |-> E.cfg.origins, allowNull |-> E.cfg.allowNull, full |-> E.cfg.full, webStatus |-> E.cfg.webStatus]
      IN /\ WellTyped(r)
         /\ NoEscape(o)
-        /\ o.opened = ServerOpens(r, cfg)
+        /\ (~EitherExts(r) => o.opened = ServerOpens(r, cfg))
+        /\ (EitherExts(r) => (o.opened => ServerOpens([r EXCEPT !.exts = "ok-none"], cfg)))
         /\ o.opened => /\ o.status = 101 /\ o.acceptOk /\ o.state = "OPEN" /\ ~o.dropped
                        /\ o.proto = (IF r.onconn = "ok-listed" THEN "listed" ELSE "")     \* only a subprotocol from the client's list
                        /\ o.extsWithinOffer
@@ -48,29 +50,37 @@ TSReq ==
                         /\ (o.status >= 400 \/ o.late \/ (r.upgrade = "missing" /\ cfg.webStatus /\ o.status \in {200, 303}))
 
 TCResp ==
-  /\ IsEvent("cresp")
+  /\ IsEvent("cresp") /\ UNCHANGED lim
   /\ LET p == Resp(E.resp) o == E.obs IN
        /\ NoEscape(o)
        /\ o.opened = ClientOpens(p)
        /\ o.opened => o.state = "OPEN" /\ ~o.dropped
        /\ ~o.opened => o.state = "CLOSED" /\ o.dropped
 
-TCReq == /\ IsEvent("creq")
+TCReq == /\ IsEvent("creq") /\ UNCHANGED lim
          /\ E.obs.hostOk /\ E.obs.portOk /\ E.obs.resourceOk /\ E.obs.keyOk /\ E.obs.versionOk /\ E.obs.escaped = ""
 
-TPair == /\ IsEvent("pair")
+TPair == /\ IsEvent("pair") /\ UNCHANGED lim
          /\ E.obs.escaped = ""
          /\ E.obs.opened = PairOpens([clientVersionSupported |-> E.m.clientVersionSupported])
          /\ E.obs.opened => E.obs.protoOk /\ E.obs.headersOk
 
 \* arbitrary / mutated octets: never an exception, never a half state; a mutation that destroys a required element
 \* never opens
-TFuzz == /\ IsEvent("fuzz")
+TFuzz == /\ IsEvent("fuzz") /\ UNCHANGED lim
          /\ NoEscape(E.obs)
          /\ E.mustNotOpen => ~E.obs.opened
          /\ E.obs.opened => E.obs.state = "OPEN"
 
-TNext == TSReq \/ TCResp \/ TCReq \/ TPair \/ TFuzz
+\* ---- the connection limit over a sequence of connections on one factory: a valid request is admitted exactly while fewer
+\* than maxConnections admitted connections are open; refused ones get 503 and never count
+TLStart == IsEvent("lstart") /\ lim' = [max |-> E.max, open |-> 0]
+TLOpen == /\ IsEvent("lopen") /\ E.obs.escaped = ""
+          /\ E.obs.admitted = (lim.open < lim.max)
+          /\ (E.obs.admitted => E.obs.status = 101) /\ (~E.obs.admitted => (E.obs.status = 503 /\ E.obs.dropped))
+          /\ lim' = [lim EXCEPT !.open = IF E.obs.admitted THEN @ + 1 ELSE @]
+TLClose == IsEvent("lclose") /\ E.obs.escaped = "" /\ lim.open > 0 /\ lim' = [lim EXCEPT !.open = @ - 1]
+TNext == TSReq \/ TCResp \/ TCReq \/ TPair \/ TFuzz \/ TLStart \/ TLOpen \/ TLClose
 TraceSpec == TInit /\ [][TNext]_tvars
 Progress == TLCSet(tid, IF TLCGet(tid) < l THEN l ELSE TLCGet(tid))
 Post ==
